@@ -2,14 +2,21 @@
    *_mismatches    : model output <> implementation output (correspondence)
    *_spec_failures : the property text applied to the IMPLEMENTATION's outputs by an independent
                      FlexFEC-03 receiver (Spec/FlexfecSpec.v); never looks at the encoder model. *)
-From IV Require Export Base.Word Base.Codes Model.Flexfec Spec.FlexfecSpec.
+From IV Require Export Base.Word Base.Codes Model.Flexfec Model.Flexfec2 Spec.FlexfecSpec.
 From Coq Require Import ZifyBool.
 
 (* observed repair packet: (plain, pt, sn, ts, ssrc, payload); plain = 1 iff version 2, no padding,
    no extension, no marker, no CSRC *)
 Definition orep := (Z * Z * Z * Z * Z * list Z)%type.
-(* observed result of one EncodeFec call: kind 0 = nil, 1 = packets, 2 = panic *)
-Definition obatch := (list (list Z) * Z * (Z * list orep))%type.
+(* one EncodeFec call: marshalled media packets, per packet HOW it was handed over (0 = as pion/rtp
+   unmarshals it, 1 = Header.Padding set and PaddingSize 0, the padding bytes inside the payload - the
+   older pion/rtp convention, 2 = padding count in the deprecated Packet.PaddingSize field,
+   1000 + c = PaddingSize c without the P bit), numFecPackets, and the observed result:
+   kind 0 = nil, 1 = packets, 2 = panic *)
+Definition obatch := (list (list Z) * list Z * Z * (Z * list orep))%type.
+Definition ob_media (b : obatch) : list (list Z) := fst (fst (fst b)).
+Definition ob_flags (b : obatch) : list Z := snd (fst (fst b)).
+Definition ob_n (b : obatch) : Z := snd (fst b).
 Definition enc_case := (Z * Z * list obatch)%type.        (* payload type, FEC SSRC, history *)
 
 Definition orep_eqb (a b : orep) : bool :=
@@ -36,11 +43,40 @@ Fixpoint list_eqb2 {A B} (eqb : A -> B -> bool) (l1 : list A) (l2 : list B) : bo
 
 Definition enc_model_ok' (c : enc_case) : bool :=
   let '(pt, ssrc, bs) := c in
-  list_eqb2 res_eqb (run_batches (new_encoder pt ssrc) (map (fun b => (fst (fst b), snd (fst b))) bs))
+  list_eqb2 res_eqb (run_batches2 (new_encoder pt ssrc) (map (fun b => (ob_media b, ob_n b)) bs))
             (map snd bs).
 
 Definition enc_mismatches (cases : list enc_case) : list nat :=
   find_idx (fun c => negb (enc_model_ok' c)) cases 0.
+
+(* the same through the model with the explicit scratch buffer (Model/Flexfec2.v): the structured packet
+   is read back from the bytes and the hand-over flag, the pool starts dirty, every second Get returns
+   the buffer Put last and every other one a buffer full of aa.  Also checks that Marshal() of the
+   structured packet (wire) is the byte string the harness recorded. *)
+Definition unwire (flag : Z) (b : list Z) : mpkt :=
+  if flag =? 1 then {| m_body := b; m_pad := 0; m_p := true |}
+  else if 1000 <=? flag then
+    let pad := Z.to_nat (flag - 1000) in
+    {| m_body := firstn (length b - pad) b; m_pad := pad; m_p := false |}
+  else if 0 <? Z.land (sbyte b 0) 32 then
+    let pad := Z.to_nat (nth (length b - 1) b 0) in
+    {| m_body := firstn (length b - pad) b; m_pad := pad; m_p := true |}
+  else {| m_body := b; m_pad := 0; m_p := false |}.
+
+Definition unwire_all (flags : list Z) (media : list (list Z)) : list mpkt :=
+  map (fun fb => unwire (fst fb) (snd fb)) (combine flags media).
+
+Definition dirty_env : pool_env := fun t buf => if Nat.even t then buf else repeat 170 (Z.to_nat 1500).
+Definition dirty_pool : pool := (0%nat, repeat 85 (Z.to_nat 1500)).
+
+Definition enc_scratch_ok (c : enc_case) : bool :=
+  let '(pt, ssrc, bs) := c in
+  let sbs := map (fun b => (unwire_all (ob_flags b) (ob_media b), ob_n b)) bs in
+  forallb (fun b => list_eqb (list_eqb Z.eqb) (map wire (unwire_all (ob_flags b) (ob_media b))) (ob_media b)) bs &&
+  list_eqb2 res_eqb (run_batches_s true dirty_env dirty_pool (new_encoder_s pt ssrc) sbs) (map snd bs).
+
+Definition enc_scratch_mismatches (cases : list enc_case) : list nat :=
+  find_idx (fun c => negb (enc_scratch_ok c)) cases 0.
 
 (* ---- the specification oracle ---- *)
 Definition recovers_b (media : list (list Z)) (d : list Z) (h : fechdr) (pos : Z) : bool :=
@@ -74,8 +110,17 @@ Definition last_sn (last : option Z) (sns : list Z) : option Z :=
         (includes: the packets XOR-ed are not exactly the packets the mask names)
      1  some media packet is named by no repair packet
      5  FEC SSRC / payload type
-     6  repair sequence numbers do not increase by one (within the batch and from the previous batch) *)
-Definition batch_code (pt ssrc : Z) (last : option Z) (media : list (list Z)) (reps : list orep) : nat :=
+     6  repair sequence numbers do not increase by one (within the batch and from the previous batch)
+     15 as 1, but every unprotected packet is in the group (same index mod n) of a packet handed over
+        with its padding inside the payload (flag 1): the shape of "fix: flexfec-03 encoder protects
+        packets whose padding is carried in the payload" - its own code so that a tree without that
+        commit reports this and nothing else as the known finding *)
+Definition legacy_explains (n : Z) (flags : list Z) (unnamed : list Z) : bool :=
+  let legacy := filter (fun j => nth (Z.to_nat j) flags 0 =? 1) (zrange 0 (length flags)) in
+  forallb (fun i => existsb (fun j => j mod n =? i mod n) legacy) unnamed.
+
+Definition batch_code (pt ssrc : Z) (last : option Z) (n : Z) (flags : list Z)
+           (media : list (list Z)) (reps : list orep) : nat :=
   let k := Z.of_nat (length media) in
   let parsed := map (fun r : orep => parse03 (snd r)) reps in
   if existsb (fun o => match o with None => true | Some _ => false end) parsed then 2%nat else
@@ -84,27 +129,29 @@ Definition batch_code (pt ssrc : Z) (last : option Z) (media : list (list Z)) (r
   if existsb (fun h => existsb (fun q => (q <? 0) || (k <=? q)) (f_pos h)) hs then 3%nat else
   if negb (forallb (fun dh => forallb (recovers_b media (fst dh) (snd dh)) (f_pos (snd dh))) (combine ds hs))
   then 4%nat else
-  if negb (forallb (fun i => existsb (fun h => existsb (Z.eqb i) (f_pos h)) hs) (zrange 0 (length media)))
-  then 1%nat else
+  let unnamed := filter (fun i => negb (existsb (fun h => existsb (Z.eqb i) (f_pos h)) hs)) (zrange 0 (length media)) in
+  if negb (match unnamed with [] => true | _ => false end)
+  then (if legacy_explains n flags unnamed then 15%nat else 1%nat) else
   if negb (forallb (fun r : orep => let '(_, t, _, _, ss, _) := r in (t =? pt) && (ss =? ssrc)) reps) then 5%nat else
   if negb (sn_consecutive last (map (fun r : orep => let '(_, _, s, _, _, _) := r in s) reps)) then 6%nat else
   0%nat.
 
 (* whole-history oracle for direct EncodeFec use.
-     10 panic although n <= 110 (n > 110 is outside the property's quantifier)
-     11 a describable batch (1..109 consecutive packets, 1 <= n <= 110) was declined or yielded nothing *)
+     10 panic with n <= 110
+     16 panic with n > 110 (the shape of "fix: flexfec-03 encoder clamps the FEC packet count": own code)
+     11 a describable batch (1..109 consecutive packets, 1 <= n) was declined or yielded nothing *)
 Fixpoint enc_spec (pt ssrc : Z) (last : option Z) (bs : list obatch) : nat :=
   match bs with
   | [] => 0%nat
-  | (media, n, (kind, reps)) :: tl =>
+  | (media, flags, n, (kind, reps)) :: tl =>
     let k := Z.of_nat (length media) in
-    if kind =? 2 then (if n <=? 110 then 10%nat else 0%nat)
+    if kind =? 2 then (if n <=? 110 then 10%nat else 16%nat)
     else if (kind =? 1) && (1 <=? n) then
-      match batch_code pt ssrc last media reps with
+      match batch_code pt ssrc last n flags media reps with
       | O => enc_spec pt ssrc (last_sn last (map (fun r : orep => let '(_, _, s, _, _, _) := r in s) reps)) tl
       | c => c
       end
-    else if (kind =? 0) && (1 <=? k) && (k <=? 109) && (1 <=? n) && (n <=? 110) && media_consecutive media
+    else if (kind =? 0) && (1 <=? k) && (k <=? 109) && (1 <=? n) && media_consecutive media
       then 11%nat
     else enc_spec pt ssrc last tl
   end.
@@ -114,8 +161,9 @@ Definition enc_spec_failures (cases : list enc_case) : list (Z * Z) :=
 
 (* ---- interceptor ---- *)
 (* configuration (numMedia, numFec, pt, FEC SSRC, media SSRC bytes), packets written (marshalled),
+   per packet how it was handed over (as in obatch: 0, 1 or 1000 + c),
    per write: (kind 1 = returned / 2 = panic, packets that reached the next writer, marshalled) *)
-Definition icpt_case := ((Z * Z * Z * Z * list Z) * list (list Z) * list (Z * list (list Z)))%type.
+Definition icpt_case := ((Z * Z * Z * Z * list Z) * list (list Z) * list Z * list (Z * list (list Z)))%type.
 
 Definition marshal_repair (r : repair) : list Z :=
   [128; r_pt r] ++ be16 (r_sn r) ++ be32 FEC_TS ++ be32 (r_ssrc r) ++ r_payload r.
@@ -130,8 +178,8 @@ Definition ires_eqb (m : res (list out)) (o : Z * list (list Z)) : bool :=
   end.
 
 Definition icpt_model_ok (c : icpt_case) : bool :=
-  let '((nm, nf, pt, fssrc, mssrc), ws, outs) := c in
-  list_eqb2 ires_eqb (i_run (new_icpt nm nf pt fssrc mssrc) ws) outs.
+  let '((nm, nf, pt, fssrc, mssrc), ws, _, outs) := c in
+  list_eqb2 ires_eqb (i_run2 (new_icpt nm nf pt fssrc mssrc) ws) outs.
 
 Definition icpt_mismatches (cases : list icpt_case) : list nat :=
   find_idx (fun c => negb (icpt_model_ok c)) cases 0.
@@ -145,36 +193,40 @@ Definition orep_of_bytes (b : list Z) : orep :=
      8  the written packet is not the first packet passed on, unmodified (or nothing was passed on)
      9  a packet of another SSRC was not passed through alone
      12 repair packets although the batch is not complete
-     10 panic;  else the codes of batch_code / 11 at the end of each batch *)
-Fixpoint icpt_spec (nm nf pt fssrc : Z) (mssrc : list Z) (last : option Z) (pending : list (list Z))
-         (ws : list (list Z)) (outs : list (Z * list (list Z))) : nat :=
+     10 panic (16 when numFecPackets > 110);  else the codes of batch_code / 11 (15) at the end of each batch *)
+Fixpoint icpt_spec (nm nf pt fssrc : Z) (mssrc : list Z) (last : option Z) (pending : list (list Z)) (pfl : list Z)
+         (ws : list (list Z)) (fls : list Z) (outs : list (Z * list (list Z))) : nat :=
   match ws, outs with
   | [], [] => 0%nat
   | w :: ws', (kind, os) :: outs' =>
-    if kind =? 2 then 10%nat else
+    let fl := hd 0 fls in
+    let fls' := tl fls in
+    if kind =? 2 then (if nf <=? 110 then 10%nat else 16%nat) else
     match os with
     | [] => 8%nat
     | o1 :: rest =>
       if negb (list_eqb Z.eqb o1 w) then 8%nat else
       if negb (list_eqb Z.eqb (sub w 8 4) mssrc) then
-        (match rest with [] => icpt_spec nm nf pt fssrc mssrc last pending ws' outs' | _ => 9%nat end)
+        (match rest with [] => icpt_spec nm nf pt fssrc mssrc last pending pfl ws' fls' outs' | _ => 9%nat end)
       else
         let batch := pending ++ [w] in
+        let bfl := pfl ++ [fl] in
         let k := Z.of_nat (length batch) in
         if k =? nm then
           let reps := map orep_of_bytes rest in
           match rest with
-          | [] => if (1 <=? k) && (k <=? 109) && (1 <=? nf) && (nf <=? 110) && media_consecutive batch
-                  then 11%nat else icpt_spec nm nf pt fssrc mssrc last [] ws' outs'
+          | [] => if (1 <=? k) && (k <=? 109) && (1 <=? nf) && media_consecutive batch
+                  then (if legacy_explains nf bfl (zrange 0 (length batch)) then 15%nat else 11%nat)
+                  else icpt_spec nm nf pt fssrc mssrc last [] [] ws' fls' outs'
           | _ =>
-            match batch_code pt fssrc last batch reps with
+            match batch_code pt fssrc last nf bfl batch reps with
             | O => icpt_spec nm nf pt fssrc mssrc
-                     (last_sn last (map (fun r : orep => let '(_, _, s, _, _, _) := r in s) reps)) [] ws' outs'
+                     (last_sn last (map (fun r : orep => let '(_, _, s, _, _, _) := r in s) reps)) [] [] ws' fls' outs'
             | c => c
             end
           end
         else match rest with
-             | [] => icpt_spec nm nf pt fssrc mssrc last batch ws' outs'
+             | [] => icpt_spec nm nf pt fssrc mssrc last batch bfl ws' fls' outs'
              | _ => 12%nat
              end
     end
@@ -183,5 +235,5 @@ Fixpoint icpt_spec (nm nf pt fssrc : Z) (mssrc : list Z) (last : option Z) (pend
 
 Definition icpt_spec_failures (cases : list icpt_case) : list (Z * Z) :=
   find_codes (fun c : icpt_case =>
-    let '((nm, nf, pt, fssrc, mssrc), ws, outs) := c in
-    icpt_spec nm nf pt fssrc mssrc None [] ws outs) cases 0.
+    let '((nm, nf, pt, fssrc, mssrc), ws, fls, outs) := c in
+    icpt_spec nm nf pt fssrc mssrc None [] [] ws fls outs) cases 0.
